@@ -1,5 +1,5 @@
-(* Non-vacuity of C01_bundle_roundtrip_any: a bundle mixing tables with rows and without rows, in
-   both orientations. *)
+(* Non-vacuity of C01_bundle_roundtrip_any: a bundle mixing tables with rows, without rows and
+   without columns, in both orientations. *)
 From Coq Require Import Lia.
 From PdV Require Import ParseTable LayoutProofs WriteProofs RoundTrip RoundTripZero RoundTripExample.
 From PdV.Model Require Import WriteCsv Segment Reader.
@@ -19,19 +19,29 @@ Proof.
   - repeat constructor; cbn; intuition discriminate.
 Qed.
 
+Definition ee_t (tr : bool) : wtable := {| w_name := [101]; w_dests := [[97]]; w_transposed := tr; w_cols := [] |}.
+
+Lemma ee_wf tr : wf_empty 59 (ee_t tr).
+Proof. unfold wf_empty. cbn [ee_t w_cols w_name w_dests]. repeat split; reflexivity. Qed.
+
 Example bundle_roundtrip_any_applies :
-  let ts := [ez_t false; ex_t true; ez_t true; ex_t false] in
+  let ts := [ez_t false; ex_t true; ez_t true; ex_t false; ee_t false; ee_t true; ex_t true] in
   read ex_pf ex_pd ex_cfg FPd None true (cells_of_lines 59 (lines (write_csv 59 ts)))
   = ([EBlock BTable 0 (CtTable (table_read_back (ez_t false)));
       EBlock BTable 6 (CtTable (table_read_back (ex_t true)));
       EBlock BTable 11 (CtTable (table_read_back (ez_t true)));
-      EBlock BTable 16 (CtTable (table_read_back (ex_t false)))], FDone).
+      EBlock BTable 16 (CtTable (table_read_back (ex_t false)));
+      EBlock BTable 23 (CtTable (table_read_back (ee_t false)));
+      EBlock BTable 29 (CtTable (table_read_back (ee_t true)));
+      EBlock BTable 33 (CtTable (table_read_back (ex_t true)))], FDone).
 Proof.
   cbv zeta.
   rewrite (bundle_roundtrip_any ex_pf ex_pd ex_cfg true 59).
   - reflexivity.
-  - apply Forall_cons; [right; apply ez_wf|]. apply Forall_cons; [left; apply ex_wf|].
-    apply Forall_cons; [right; apply ez_wf|]. apply Forall_cons; [left; apply ex_wf|]. constructor.
+  - apply Forall_cons; [right; left; apply ez_wf|]. apply Forall_cons; [left; apply ex_wf|].
+    apply Forall_cons; [right; left; apply ez_wf|]. apply Forall_cons; [left; apply ex_wf|].
+    apply Forall_cons; [right; right; apply ee_wf|]. apply Forall_cons; [right; right; apply ee_wf|].
+    apply Forall_cons; [left; apply ex_wf|]. constructor.
   - repeat (apply Forall_cons; [vm_compute; repeat constructor|]). constructor.
   - reflexivity.
 Qed.
